@@ -13,8 +13,8 @@ stack is non-empty; for the current frame
   underflows: each entry pops `cons st e` values, a running `for` has `[iteree, Int index]` on top
   (`entryOK`), and leaves one value of unknown content iff `prod st e`;
 * `KOK f.exprs`: every pending node is a well-formed syntax tree (`okE`), and a node that may be or
-  contain `break`/`continue` is pending only inside the body of a running loop whose value is
-  unused, under unused `if`/`match` statements only (`loopCtx`);
+  contain `break`/`continue` is pending only inside the body of a running loop (its value used or
+  not), under unused `if`/`match` statements only (`loopCtx`);
 * `1 + C06.owners f.exprs ≤ f.blocks.length`: one binding block per block-owning pending entry plus
   at least one base block (re-using the balance theorem `C06.dispatch_bal`), so `pop_block` never
   empties the bindings;
@@ -38,14 +38,13 @@ outside `Reach` (resuming is C08's subject).
 **Exclusions = known defects of the real interpreter, part of `okProg`.**
 (i) `break`/`continue` in operand position, e.g. `1 + break` (C02/break-continue-in-operand-position):
     `okE false (.brk ..) = false`.
-(ii) `break` out of a loop whose value is used, e.g. `(while True { break }, while True { break })`
-    panics "Value stack should have sufficient items for the tuple literal", because `eval_break`
-    pushes Unit according to the `break`'s own flag, not the loop's
-    (C02/used-loop-exited-by-break): a loop body is `okBlock (!u) ..`, so `break` is allowed only
-    in loops with `u = false`.  FIXED in /repo HEAD (7c0ed2e): `eval_break` pushes by the loop's
-    `value_is_used`, and the model's `.brk` case follows (`headLoopUsed`); `okProg` still excludes
-    `break` inside used loops, which is now stronger than necessary (for programs that pass `okProg`
-    both versions push nothing).
+(ii) (NO LONGER an exclusion) `break` out of a loop whose value is used, e.g.
+    `(while True { break }, while True { break })` or any toplevel `while … { break }` (toplevel
+    expressions are used): before the fix 7c0ed2e in /repo it panicked "Value stack should have
+    sufficient items for the tuple literal" because `eval_break` pushed Unit by the `break`'s own flag.
+    Now `eval_break` (and the model's `.brk` case) pushes Unit iff the LOOP's value is used, and
+    `okProg` accepts `break`/`continue` in the body of any loop, used or not (`okBlock true false body`;
+    `breakLoop_disc` shows the value the consumer waits for is pushed exactly when `headLoopUsed`).
 (iii) `break`/`continue` outside any loop (function bodies and lambdas are checked with flag `false`).
 (iv) before the parser fix in /repo HEAD (acc2a71), a parenthesised expression in statement position
     (`for x in [1,2] { (5) }` → panic "`for` loop index should always be an `Int`"): `okE` requires
@@ -126,14 +125,15 @@ def badOperand : Program :=
 example : okProg badOperand = false := by
   simp [okProg, okE, okBlock, okItems, Expr.used, badOperand]
 
-/-- (ii) `(while True { break }, while True { break })`: `break` out of a used loop is rejected. -/
-def badUsedLoop : Program :=
+/-- (ii) `(while True { break }, while True { break })`: `break` out of a USED loop is accepted (the
+evaluator pushes the loop's Unit on `break` since 7c0ed2e; a toplevel loop is a used expression). -/
+def usedLoop : Program :=
   { funs := [], enums := [],
     toplevel := [.tuple 1 true [.whileE 2 true (.var 3 true "True") [.brk 4 false],
                                 .whileE 5 true (.var 6 true "True") [.brk 7 false]]] }
 
-example : okProg badUsedLoop = false := by
-  simp [okProg, okE, okBlock, okItems, Expr.used, badUsedLoop]
+example : okProg usedLoop = true := by
+  simp [okProg, okE, okBlock, okItems, Expr.used, usedLoop]
 
 /-- (iv) `for x in [1, 2] { (5) }` as parsed before the fix (inner `5` used, the parenthesised
 statement unused) is rejected. -/
